@@ -30,7 +30,7 @@ def obligations(tier, ctx):
     ENV_SIZES = (4096, 8192, 65536, 131072)
     lim = 70000 if tier == "quick" else 140000
     nsz = len(consts.size_cases(lim, extra=ENV_SIZES))
-    for pat, cut in (((0, 0), (5, 2)) if tier == "quick" else ((0, 0), (0, 1), (0, 2), (0, 3), (0, 4), (5, 0), (5, 2), (4, 2), (1, 1))):
+    for pat, cut in (((0, 0), (5, 2), (6, 0), (7, 1), (8, 3)) if tier == "quick" else ((0, 0), (0, 1), (0, 2), (0, 3), (0, 4), (5, 0), (5, 2), (4, 2), (1, 1), (6, 0), (7, 0), (8, 0), (6, 2), (7, 1), (8, 3))):
         obs.append(Ob(name=f"chunk_long_p{pat}_c{cut}", params=[("k", "int")], pre=[f"0 <= k < {nsz}"], call=f"H.chunking_long(k, {pat}, {cut}, {lim})", backend="P", timeout=900,
                       family="(a) size: an event line of c-1, c, c+1 characters (c: integer constants of the source and environment sizes), five ways of cutting it"))
     for via in (False, True):
